@@ -87,8 +87,23 @@ class C04(Prop):
         ("F", "diagrams of the two orthogonality-centre shortcuts (C04_center_norm_diagram, C04_center_single_site_diagram: state leg meets operator axis 1)"),
         ("O", "semantic bridge over any commutative semiring under the kernel contract `every tensor off the centre is an isometry from its bond toward the centre' "
               "(iso_atom, a hypothesis on the atom table): removal of one isometry pair (C04_iso_pair_remove), induction from the leaves toward the centre "
-              "(C04_block_delta), value of <psi|psi> = value of the local centre diagram (C04_canonical_norm_is_local) -- for an abstract tree of atoms; the link from "
-              "iso_check / the QR definitions of a store to that contract is not formalised"),
+              "(C04_block_delta), value of <psi|psi> = value of the local centre diagram (C04_canonical_norm_is_local) -- for an abstract tree of atoms"),
+        # [bridge-C04]
+        ("F", "gvalue, the denotation of glued diagrams (SUM over bound wires and one index per glued pair of the product of the atoms): invariant under reordering "
+              "atoms / bound wires / glued pairs, equal to Sem.value on diagrams without glue, and Blocks.g_tensordot denotes np.tensordot under the non-interference "
+              "conditions td_ok (C04_gvalue_perm, C04_gvalue_plain, C04_gvalue_g_tensordot); the tree of a store re-rooted at the centre (C04_centre_tree); wf_two s (conj s) "
+              "from wf s + one open leg per node (C04_wf_two_of_wf); canonical_form / move_orthogonalization_center establish / preserve the extended invariant wfs, "
+              "one open leg per node and `every tensor off the centre is the plain Q atom of its QR call' (C04_canonical_form_plain, C04_move_center_plain); canon_hyp is "
+              "sound (C04_canon_hyp_sound)"),
+        ("O", "THE BRIDGE, under the kernel contract qr_contracts (Q^dagger Q = 1 on the atom table for the Q factor of every recorded QR call still in the network): "
+              "for every state with wfs, one open leg per node, a centre passing iso_check and plain off-centre tensors, value(diagram of contract_two_ttns(s, conj s)) = "
+              "value(diagram of the centre shortcut of scalar_product) (C04_canonical_norm_is_full_contraction) and value(diagram of the general path of "
+              "tensor_product_expectation_value for one factor at the centre) = value(diagram of the single_site_operator_expectation_value shortcut) "
+              "(C04_single_site_is_full_contraction), over any commutative semiring; end to end for the result of canonical_form on any wfs state with one open leg per node "
+              "and after move_orthogonalization_center (C04_canonical_form_shortcuts, C04_move_center_shortcuts; the only further hypotheses: offsets of the conjugate copy)"),
+        ("I", "per explored tp instance: canon_hyp (wfsb, iso_check, one open leg per node, plain off-centre tensors, offsets: the structural hypotheses of the bridge theorems) "
+              "on the MODEL's canonical form of the state at the centre the implementation used, by vm_compute (canon_case)"),
+        # [/bridge-C04]
         ("I", "per explored tp / asmat instance: wfb, tp_hyp (hypotheses of C04_tp_hyp_closed) and the result checkers tp_result_ok / complete_contraction_ok by vm_compute; "
               "value ties: einsum of the model diagram = tensor_product_expectation_value (general path, dispatch with a forced centre), scalar_product() and "
               "single_site_operator_expectation_value at a forced centre, as_matrix entrywise (exact on integer tensors / 1e-9)"),
@@ -98,7 +113,10 @@ class C04(Prop):
         ("V", "norm() total on every state, gauge independence, the shortcuts on canonical states against <psi|O|psi>: dense oracle"),
     ]
     trusted_base = ["NumPy tensordot/transpose/reshape implement the diagram operations (validated exactly on integer tensors)",
-                    "kernel contract of the semantic bridge: each Q factor is an isometry from its bond (validated numerically by C03/C11)"]
+                    "kernel contract of the semantic bridge (qr_contracts / iso_atom, premises of the O theorems): the Q factor of every recorded QR call is an isometry "
+                    "from its bond, Q^dagger Q = 1 (REDUCED / FULL modes; validated numerically by C03/C11; false for zero-padded KEEP factors, where the theorems are silent)",
+                    "gvalue (Contr/TensorProdBridge.v) is the DEFINITION of what a glued diagram denotes (glued legs share one summation index); it agrees with Wire/Sem.value on "
+                    "glue-free diagrams, satisfies the tensordot law (C04_gvalue_g_tensordot), and is what the harness evaluates numerically (eval_closed) against the implementation"]
 
     def generate(self, ctx, stream, budget_scale=1):
         rng = ctx.rng(stream)
@@ -332,6 +350,26 @@ class C04(Prop):
         vals = coq_eval(ctx, imports, exprs, shard=10, scope="nat_scope", timeout=600)
         for i, v in zip(idx, vals):
             out[i] = v
+        # [bridge-C04] structural hypotheses of C04_canonical_norm_is_full_contraction / C04_single_site_is_full_contraction
+        # (canon_hyp: wfsb, iso_check, one open leg per node, plain off-centre tensors, offsets) on the MODEL's canonical
+        # form of every explored `tp` state at the centre the implementation used; an instance obligation
+        cexprs, cidx = [], []
+        for i, ob in enumerate(obs):
+            if "exception" in ob or ob["kind"] != "tp":
+                continue
+            idm = IdMap()
+            kl = coq_list([("(" + wmodel.coq_op(o, idm) + ")") for o in ob["kops"]])
+            cexprs.append(f"canon_case {kl} {coq_nat(idm(ob['forced_centre']))} {coq_nat(WOFF)} {coq_nat(AOFF)}")
+            cidx.append(i)
+        cimports = ("From Coq Require Import List Arith. From PTN Require Import TTN.Store Contr.TensorProdBridge. Import ListNotations.")
+        cvals = coq_eval(ctx, cimports, cexprs, shard=20, scope="nat_scope", timeout=600)
+        for i, v in zip(cidx, cvals):
+            self._closed[0] += 1
+            if v is True:
+                self._closed[1] += 1
+            else:
+                self._closed[2].append(f"seed {cases[i]['seed']}: canon_hyp (hypotheses of the canonical-form bridge theorems) is not true on the model's canonical form: {v}")
+        # [/bridge-C04]
 
     def _compare_ext(self, case, ob, mo):
         if isinstance(mo, Exception):
